@@ -264,6 +264,13 @@ class Gen:
             else:
                 body.append(("expr", rec))
         else:
+            if fty[2] == "null" and self.rng.random() < 0.15:
+                self.note("empty-function")          # a stub: parameters, no body at all
+                env.depth_fn -= 1
+                env.pop_ctx()
+                env.defining.discard(name)
+                self.note("fn")
+                return ("fn", name, params, [])
             body += self.stmts(self.rng.randint(0, 3), d)
             if fty[2] == "null":
                 # a procedure: the body ends in a statement that is not an expression (value-less return)
